@@ -630,10 +630,14 @@ class SinkUpdate(NodeUpdate):
         return {'func': VCallable('func'), 'args': ARGS, 'kwargs': KWARGS}
 
     def globals(self):
-        return {'gen': VBuiltin('gen')}
+        return {'gen': VBuiltin('gen'), 'inspect': VBuiltin('inspect'), 'asyncio': VBuiltin('asyncio')}
 
     def spec_funcs(self):
         d = NodeUpdate.spec_funcs(self)
+        from .async_common import async_spec_funcs
+        for k, v in async_spec_funcs(self).items():
+            if k.startswith('builtin_inspect.') or k in ('builtin_gen.is_future', 'builtin_asyncio.isfuture', 'builtin_asyncio.iscoroutine'):
+                d[k] = v
 
         def isawaitable(I, args, kwargs, fr):
             v = args[0]
@@ -800,6 +804,11 @@ class PartitionNode(Segment):
         return d
 
 
+    def spec_funcs(self):
+        from .c_nodes_keyed import dict_spec_funcs
+        return dict_spec_funcs(Segment.spec_funcs(self))
+
+
 class PartitionUpdate(PartitionNode):
     cls = 'partition'
     method = 'update'
@@ -908,7 +917,13 @@ class PartitionFlushAfterEmit(PartitionNode):
 
     def clauses(self):
         return [Clause('C05.releases_batch_after_downstream_completed', ['C05', 'C04'], when='return',
-                       text='delta == -occ(metadata_result) and emitted == []')] + self.segment_clauses()
+                       text='delta == -occ(metadata_result) and emitted == []'),
+                Clause('C08.finished_flush_leaves_buffers_and_timers_of_the_next_batch_alone', ['C08', 'C02'], when='normal',
+                       text='keys(self._callbacks) == old(keys(self._callbacks)) and keys(self._buffer) == old(keys(self._buffer)) '
+                            'and list(self._buffer[kx]) == old(list(self._buffer[kx])) and len(cancelled) == 0 and len(timers) == 0',
+                       note='while the flush waited for its consumer the next batch of the key may have started (buffer refilled, '
+                            'timer armed): the tail of the flush must not touch it'),
+                ] + self.segment_clauses()
 
 
 ALL += [PartitionUpdate, PartitionUpdateNoTimeout, PartitionFlushTimer, PartitionFlushAfterEmit]
